@@ -83,22 +83,32 @@ class C03(Check):
         cssutils = quiet()
         try:
             rng = ctx.sub_rng('c03')
-            ctx.phase(self.corr_patterns, ctx, cssutils, rng)
-            ctx.phase(self.corr_functions, ctx, cssutils, rng)
-            ctx.phase(self.corr_safe, ctx, cssutils, rng)
+            import time
+            times = {}
+
+            def ph(fn, *a):
+                t0 = time.time()
+                ctx.phase(fn, *a)
+                times[fn.__name__] = round(time.time() - t0, 1)
+            ph(self.corr_patterns, ctx, cssutils, rng)
+            ph(self.corr_functions, ctx, cssutils, rng)
+            ph(self.corr_safe, ctx, cssutils, rng)
             self.setup_impl(cssutils)
-            ctx.phase(self.corr_image, ctx, cssutils, rng)
-            ctx.phase(self.corr_canon, ctx, cssutils)
-            ctx.phase(self.oracle_corpus, ctx, cssutils)
-            ctx.phase(self.oracle_structural, ctx, cssutils, rng)
-            ctx.phase(self.oracle_namespaces, ctx, cssutils, rng)
-            ctx.phase(self.oracle_media, ctx, cssutils, rng)
-            ctx.phase(self.oracle_setters, ctx, cssutils, rng)
-            ctx.phase(self.oracle_encodings, ctx, cssutils, rng)
-            ctx.phase(self.oracle_tokenpairs, ctx, cssutils, rng)
-            ctx.phase(self.slots, ctx, cssutils, rng)
-            ctx.phase(self.oracle_composite, ctx, cssutils, rng)
-            ctx.phase(self.oracle_shipped, ctx, cssutils)
+            ph(self.corr_image, ctx, cssutils, rng)
+            ph(self.corr_canon, ctx, cssutils)
+            ph(self.oracle_corpus, ctx, cssutils)
+            ph(self.oracle_structural, ctx, cssutils, rng)
+            ph(self.oracle_namespaces, ctx, cssutils, rng)
+            ph(self.oracle_media, ctx, cssutils, rng)
+            ph(self.oracle_setters, ctx, cssutils, rng)
+            ph(self.oracle_encodings, ctx, cssutils, rng)
+            ph(self.oracle_tokenpairs, ctx, cssutils, rng)
+            ph(self.slots, ctx, cssutils, rng)
+            ph(self.oracle_composite, ctx, cssutils, rng)
+            ph(self.oracle_shipped, ctx, cssutils)
+            ctx.notes['phase-seconds'] = times
+            if os.environ.get('C03_TIMES'):
+                print('phase seconds:', times)
         finally:
             cssutils.ser.prefs.useDefaults()
 
@@ -824,9 +834,15 @@ class C03(Check):
             for pat in ('*.css', os.path.join('*', '*.css')):
                 files += sorted(glob.glob(os.path.join(ctx.repo, base, pat)))
         ctx.notes['shipped_sheets'] = len(files)
+        seen = set()
         for f in files:
             data = open(f, 'rb').read()
             rel = os.path.relpath(f, ctx.repo)
+            if data in seen:
+                # sheets/ and cssutils/tests/sheets/ hold the same files: identical bytes give the identical run
+                ctx.count('shipped:same-bytes-as-checked')
+                continue
+            seen.add(data)
             try:
                 with time_limit(120):
                     sheet = self.parser.parseString(data, href='file://' + f)
